@@ -34,10 +34,27 @@ TlsLetters  == TlsShare \cup {"tlstimeout"}
 \* the target while it is away fails like a transport failure; the others are answered with a plain 200 / OK.
 AvailLetters == {"avreset", "avhole", "avrefused"}
 ShareLetters == TlsShare \cup AvailLetters
-NetLetters  == {"badstatus", "badheader", "hugeheader", "closebefore", "closeduring", "refused", "timeout"} \cup TlsLetters
-               \cup AvailLetters
-BodyLetters == {"trunc", "badchunk"}
-OddLetters  == {"early", "empty", "big", "notjson", "jsonarr", "nothtml", "shorthdr", "nohdr"}
+\* the connect gun's TUNNEL: the CONNECT is not answered (connection closed) / answered 407 / with bytes that are no status
+\* line / with 200 and bytes behind it - no request gets through, every shot is a transport failure
+TunnelLetters == {"tunrefused", "tun407", "tungarbage", "tunextra"}
+\* "many1xx": more interim 1xx responses than the client puts up with
+\* HTTP/2 frame level (the http2 guns against a frame-level target): GOAWAY and the connection closed, RST_STREAM instead
+\* of a response, a DATA frame on stream 0, a header block that is not HPACK - no response; "h2rstmid" (below): HEADERS 200
+\* and a part of the body, then RST_STREAM; "h2flood" (below): thousands of SETTINGS and PING frames, then a good response
+H2NetLetters == {"h2goaway", "h2rst", "h2badframe", "h2hpackbad"}
+NetLetters  == {"badstatus", "badheader", "hugeheader", "closebefore", "closeduring", "refused", "timeout", "many1xx"} \cup TlsLetters
+               \cup AvailLetters \cup TunnelLetters \cup H2NetLetters
+\* chunked bodies with a chunk size that overflows / is negative / whose data is not followed by CRLF / that end inside a
+\* chunk; "gzipbad": Content-Encoding gzip on a body that is no gzip stream, client configured to decompress
+BodyLetters == {"trunc", "badchunk", "chunkhuge", "chunkneg", "chunknocrlf", "chunktrunc", "gzipbad", "h2rstmid"}
+\* "lst*": a well-formed 200 whose JSON body has, under the key `list` that later steps index, an EMPTY array / an array
+\* of one element / a string / null / an object (every other JSON-bodied letter: an array of two elements)
+ListLetters == {"lst0", "lst1", "lststr", "lstnull", "lstobj"}
+\* "cont100": an unsolicited 100 Continue before the response; "upgrade": 101 Switching Protocols (nobody asked), then the
+\* peer hangs up; "gzipraw": the gzipbad bytes with the default client (no decompression: the garbage IS the body);
+\* "manyheaders": a header block of 1.2 MB in 20 000 lines; "dribble": a well-formed response in one-byte writes
+OddLetters  == {"early", "empty", "big", "notjson", "jsonarr", "nothtml", "shorthdr", "nohdr", "cont100", "upgrade", "gzipraw",
+                "manyheaders", "dribble", "h2flood"} \cup ListLetters
 \* "hv": a well-formed 200 whose X-Tok header value has exactly `code` bytes (0 = empty / absent)
 ValueLens   == {0, 1, 2, 3, 5, 12}
 HvLetter(n) == [l |-> "hv", code |-> n]
@@ -47,22 +64,35 @@ HttpLetters == {StatusLetter(c) : c \in StatusCodes} \cup {Plain(l) : l \in NetL
 \* attributes of the response the client gets to see
 NetFails(x)   == x.l \in NetLetters                      \* no response at all: transport error
 BodyFails(x)  == x.l \in BodyLetters                     \* status and headers arrive, reading the body fails
-Code(x)       == IF x.l = "status" THEN x.code ELSE 200
-\* the body is a JSON object in which $.tok and $.list[0] exist ("jsonarr" is valid JSON, but an array)
+Code(x)       == IF x.l = "status" THEN x.code ELSE IF x.l = "upgrade" THEN 101 ELSE 200
+\* ("jsonarr" is valid JSON, but an array)
+\* the body is a JSON object in which $.tok exists; what is under $.list: "n" an array with elements, "empty" an empty
+\* array, "scalar" something that cannot be indexed (a string, null, an object)
+ListKind(x)   == CASE x.l = "lst0" -> "empty" [] x.l \in {"lststr", "lstnull", "lstobj"} -> "scalar" [] OTHER -> "n"
 BodyJSON(x)   == CASE x.l = "status" -> ~NoBody(x.code)
-                   [] x.l \in {"early", "big", "shorthdr", "nohdr", "hv"} -> TRUE
+                   [] x.l \in {"early", "big", "shorthdr", "nohdr", "hv", "cont100", "manyheaders", "dribble", "h2flood"} \cup ListLetters -> TRUE
                    [] OTHER -> FALSE
 BodyHasTok(x) == BodyJSON(x) \/ x.l \in {"notjson", "jsonarr"}          \* the byte string "tok" occurs in the body
 HdrTok(x)     == CASE x.l \in {"shorthdr", "hv"} -> "short" [] x.l = "nohdr" -> "absent" [] OTHER -> "long"
 
 \* gRPC: the status the server returns / what happens to the call
-GrpcCodes   == 0..16
-GrpcLetters == {[l |-> "code", code |-> c] : c \in GrpcCodes} \cup {Plain("gbig"), Plain("gtoobig"), Plain("gslow"), Plain("gkill")}
+\* codes.Code is the uint32 of the grpc-status trailer: the peer may send values outside the canonical 0..16
+GrpcCodes   == 0..16 \cup {17, 42, 2147483647}
+\* "gempty": status OK, the reply message is empty (no field set); "ggarbage": status OK, the message bytes cannot be
+\* decoded; "gkillmid": the response headers arrive, then the connection is closed (the stream ends in the middle).
+\* (Trailers-only responses are what every error code letter is: the server answers an error without headers or message.)
+GrpcLetters == {[l |-> "code", code |-> c] : c \in GrpcCodes}
+               \cup {Plain("gbig"), Plain("gtoobig"), Plain("gslow"), Plain("gkill"), Plain("gempty"), Plain("ggarbage"), Plain("gkillmid")}
                \cup {Plain(l) : l \in AvailLetters}
-GrpcOK(x)   == (x.l = "code" /\ x.code = 0) \/ x.l = "gbig"
+GrpcOK(x)   == (x.l = "code" /\ x.code = 0) \/ x.l \in {"gbig", "gempty"}
+\* the reply message carries the greeting the grpc/scenario runs assert on
+GrpcGreets(x) == GrpcOK(x) /\ x.l # "gempty"
 
 \* ---------------------------------------------------------------- postprocessors of step "a" of a scenario gun
 Posts == {"none", "jsonpath", "header_substr", "xpath", "assert", "all"}
+\* response-derived LISTS flowing into a later step: a captures `items: $.list` (var/jsonpath), b's preprocessor maps
+\* `row: request.a.postprocessor.items[<index>]` with every index form
+IdxPosts == {"idx_last", "idx_next", "idx_rand", "idx_0", "idx_neg", "idx_big"}
 Has(p, q) == p = q \/ p = "all"
 
 \* ---------------------------------------------------------------- var/header modifiers on response-derived values
@@ -106,7 +136,8 @@ HttpOutcome(x) ==
 \* http/scenario step with postprocessors p: failed step = error + __EMPTY__ (+ the received status, see below)
 StepFails(x, p) ==
     \/ NetFails(x) \/ BodyFails(x)
-    \/ Has(p, "jsonpath") /\ ~BodyJSON(x)                    \* the body is not JSON: capture error
+    \/ Has(p, "jsonpath") /\ (~BodyJSON(x) \/ ListKind(x) # "n")   \* the body is not JSON / $.list[0] does not exist: capture error
+    \/ p \in IdxPosts /\ ~BodyJSON(x)                         \* $.list does not exist
     \/ Has(p, "assert") /\ (HdrTok(x) # "long" \/ ~BodyHasTok(x))   \* assert/response headers {X-Tok: "h"}, body ["tok"]
     \* var/header with |substr(5,10) on a short or absent value and var/xpath on anything never fail the step
 \* a failed step carries the status that was received, 0 if no response arrived at all
@@ -115,14 +146,20 @@ ScenStepOutcome(x, p) == IF NetFails(x) THEN Smp(0, TRUE, TRUE)
                          ELSE Smp(Code(x), FALSE, FALSE)
 
 \* scenario = << a (postprocessors p), b (none) >>; the same letter answers both steps
+\* with an index form in b's preprocessor: a list without elements (or something that is no list) fails step b BEFORE
+\* anything is sent - a failed step without a response (proto 0) -, it never fails the run
 HttpScenOutcome(x, p) ==
     IF StepFails(x, p) THEN <<ScenStepOutcome(x, p)>>
+    ELSE IF p \in IdxPosts /\ ListKind(x) # "n" THEN <<ScenStepOutcome(x, p), Smp(0, TRUE, TRUE)>>
     ELSE <<ScenStepOutcome(x, p), ScenStepOutcome(x, "none")>>
 
 GrpcOutcome(x) == IF GrpcOK(x) THEN Smp(200, FALSE, FALSE) ELSE Smp(GE400, FALSE, FALSE)
 \* grpc/scenario: a has assert/response(status_code 200, payload ["Hello"]); a failed assertion ends the shot,
 \* its sample carries the received code
-GrpcScenOutcome(x) == IF GrpcOK(x) THEN <<Smp(200, FALSE, FALSE), Smp(200, FALSE, FALSE)>> ELSE <<Smp(GE400, FALSE, FALSE)>>
+\* (an OK reply without the greeting fails the payload assertion: the sample keeps the code 200, the shot ends)
+GrpcScenOutcome(x) == IF GrpcGreets(x) THEN <<Smp(200, FALSE, FALSE), Smp(200, FALSE, FALSE)>>
+                      ELSE IF GrpcOK(x) THEN <<Smp(200, FALSE, FALSE)>>
+                      ELSE <<Smp(GE400, FALSE, FALSE)>>
 
 Outcome(gun, x, p) ==
     CASE gun \in {"http", "https", "http2", "connect"} -> <<HttpOutcome(x)>>
@@ -134,7 +171,14 @@ GrpcGuns == {"grpc", "grpc/scenario"}
 \* what a request gets when nothing is wrong
 OkLetter(gun) == IF gun \in GrpcGuns THEN [l |-> "code", code |-> 0] ELSE StatusLetter(200)
 LettersOf(gun) == IF gun \in {"grpc", "grpc/scenario"} THEN GrpcLetters ELSE HttpLetters
-PostsOf(gun)   == IF gun \in {"http/scenario", "http2/scenario"} THEN Posts ELSE {"none"}
+PostsOf(gun)   == IF gun = "http/scenario" THEN Posts \cup IdxPosts ELSE IF gun = "http2/scenario" THEN Posts ELSE {"none"}
+
+\* For the instance loop two letters are the same thing when they yield the same samples under every postprocessor set of
+\* the gun: the loop is explored over one representative per class (OutcomeTotal still ranges over every letter; the
+\* negative control over every letter, its trigger being a property of single letters).
+ClassOf(gun, x) == [p \in PostsOf(gun) |-> Outcome(gun, x, p)]
+Repr == [g \in Guns |-> {CHOOSE y \in LettersOf(g) : ClassOf(g, y) = c : c \in {ClassOf(g, x) : x \in LettersOf(g)}}]
+AcqLetters(gun) == IF RespCanPanic THEN LettersOf(gun) ELSE Repr[gun]
 
 \* the only documented fatal condition: an http2 gun against a target that does not speak HTTP/2
 Fatal(gun, x) == gun \in {"http2", "http2/scenario"} /\ x.l = "nonh2"
@@ -155,7 +199,7 @@ Init == /\ \E g \in Guns : \E p \in PostsOf(g) : run = [gun |-> g, posts |-> p]
 
 Acquire(i) == /\ pc[i] = "idle" /\ poolErr = "none" /\ taken < NAmmo
               /\ taken' = taken + 1
-              /\ \E x \in LettersOf(run.gun) : cur' = [cur EXCEPT ![i] = x]
+              /\ \E x \in AcqLetters(run.gun) : cur' = [cur EXCEPT ![i] = x]
               /\ pc' = [pc EXCEPT ![i] = "shoot"]
               /\ UNCHANGED <<run, nsamples, due, poolErr>>
 
@@ -170,6 +214,10 @@ Shot(i) == /\ pc[i] = "shoot" /\ poolErr = "none"
 \* "shoot panic", the pool fails and every instance is cancelled
 ShotPanic(i) == /\ RespCanPanic /\ pc[i] = "shoot" /\ poolErr = "none"
                 /\ \/ run.gun = "http/scenario" /\ Has(run.posts, "header_substr") /\ HdrTok(cur[i]) = "short"
+                   \* or: a symbolic index into a response-derived list that is empty
+                   \/ run.gun = "http/scenario" /\ run.posts \in IdxPosts /\ ListKind(cur[i]) = "empty"
+                   \* or: a table lookup with the peer's gRPC status code
+                   \/ run.gun \in {"grpc", "grpc/scenario"} /\ cur[i].l = "code" /\ cur[i].code > 16
                    \* or: every TLS alert of the peer mistaken for the documented "target has no HTTP/2"
                    \/ run.gun \in {"http2", "http2/scenario"} /\ cur[i].l \in TlsLetters
                 /\ poolErr' = "panic"
